@@ -24,6 +24,9 @@ write, atomic with the payload only if Env.apply holds the lock over the whole
 update; a worker write through env[...] that bypasses the Env API must sit
 under the environment lock; helper predicates of the decision are inlined
 with the roles bound by argument position.
+GRAPH-WHOLE - the graphs that supply the dependencies to the decision are
+the job's own, in the scheduler and inside the backend (never re-bound to a
+pruned / transitively reduced copy).
 Not decided: other backends, fairness, the behaviour of Task.do itself.
 '''
 ASSUMPTIONS = [
@@ -39,6 +42,8 @@ def check(ctx):
     ctx.run(sched_rel.check_enq)
     ctx.run(sched_rel.check_lock)
     ctx.run(sched_worker.check_pub)
+    ctx.run(sched_rel.check_graph_whole)
+    ctx.run(sched_rel.check_graph_rebound)
 
 
 from ..variants import sched as _v   # noqa: E402
